@@ -19,6 +19,8 @@ def args_for(unit, failure, tier='quick'):
         return ['c08-compactas']
     if unit in ('U-SANITY', 'U-CALLS') or unit == 'kani:sanity_pass_upto4':
         return ['c10-sanity']
+    if unit == 'U-SUBST':
+        return ['c16-subst']
     if unit == 'U-BUILDERS':
         return ['c16-builders']
     if unit == 'U-MIXED':
